@@ -33,7 +33,7 @@ STUB = ['Verilog side: dsim/vsim (IEEE 1364-2005 subset event simulator written 
 ASSUMPTIONS = ['vsim reading of IEEE 1364-2005 sizing, x-propagation and scheduling (see dsim/vsim/README.md, selftest)',
                'single clock domain; divisors of Div/Mod are OR-ed with 1 (division by zero is documented as nondeterministic)',
                'designs containing rotate blocks are not emittable (generator refuses) and are kept out']
-PROBES = ['generated_after_simulation', 'generated', 'elaborated', 'shared_module_reused', 'reg_reset_value', 'memory_body', 'race_probe', 'hierarchy', 'wide_gt_64', 'transpiled_block']
+PROBES = ['reserved_names', 'generated_after_simulation', 'generated', 'elaborated', 'shared_module_reused', 'reg_reset_value', 'memory_body', 'race_probe', 'hierarchy', 'wide_gt_64', 'transpiled_block']
 
 
 def emittable_kinds():
@@ -57,6 +57,21 @@ def gen(rs, tier, index):
     d = netlist.gen_design(rng, n, comb, hier_depth=rng.choice([0, 0, 1, 2, 3]), feedback=rng.choice([0, 0.2]),
                            seq_kinds=seqk, seq_frac=rng.choice([0, 0.2, 0.4]), maxw=70)
     apply_exclusions(d, kf, rng)
+    if rng.random() < 0.2:
+        # naming: reserved words as wire / port / instance names (the generator renames them; behaviour must not change)
+        RES = ['reg', 'wire', 'output', 'input', 'signed', 'module', 'begin', 'end', 'assign', 'always', 'integer', 'logic', 'bit']
+        nr = rs.get('naming')
+        sigs = sorted(netlist.sig_widths(d))
+        names, inst = {}, {}
+        for wname in nr.sample(RES, nr.randint(1, 4)):
+            if nr.random() < 0.7:
+                names[nr.choice(sigs)] = wname
+            elif d['nodes']:
+                inst[str(nr.choice(d['nodes'])['id'])] = wname
+        # one name per signal, one signal per name
+        seen = set()
+        d['names'] = {r: n_ for r, n_ in names.items() if not (n_ in seen or seen.add(n_))}
+        d['inst_names'] = inst
     order = list(d['order'])
     if rng.random() < 0.5:
         rng.shuffle(order)
@@ -182,7 +197,11 @@ def cosim(scn, log, st, zero_powerup=False, collect_all=False):
         log.add('elab failed', getattr(e, 'rule', '?'))
         return None
     st.probe('elaborated')
-    outs = [(r, r.replace('.', '_')) for r in d['outputs']]
+    import py4hw.rtl_generation as _rtl
+    nm = d.get('names') or {}
+    outs = [(r, _rtl.getValidVerilogName(nm.get(r, r.replace('.', '_')))) for r in d['outputs']]
+    if nm or d.get('inst_names'):
+        st.probe('reserved_names')
     vs = vsim.Sim(design, rng=random.Random(scn['vseed']), zero_powerup=zero_powerup, settle0=False)
     has_clk = 'clk' in design.inputs
     if has_clk:
@@ -192,8 +211,9 @@ def cosim(scn, log, st, zero_powerup=False, collect_all=False):
     def vset(vec):
         vec = list(vec) + [0] * (len(d['inputs']) - len(vec))      # pruned designs gain inputs: they are driven 0 on both sides
         for i, v in zip(d['inputs'], vec):
-            if i['name'] in design.inputs:
-                vs.set(i['name'], v)
+            pn = _rtl.getValidVerilogName(nm.get(i['name'], i['name']))
+            if pn in design.inputs:
+                vs.set(pn, v)
     vset(first)
     vs.settle()
     b.set_inputs(first)
